@@ -139,6 +139,9 @@ def run(ctx):
                                 "list iterator (Cons continues, Null ends, anything else is a dotted tail)")
     n = tailmap.check(rt, lexpr, which=("cons", "datum"))
     rt.floor("cdr-kinds", n)
+    # the two stream iterators stop at the same point: both are fused by the same sticky flag on every error (shared with C12)
+    from . import c12
+    c12.fuse(ctx, lexpr)
     from .. import cloneid
     rc = ctx.rule("R-CLONE-ID", "the hand-written, iterative SpanInfo::clone gives back the chain, terminator kinds and "
                                 "spans it was given (an owned copy of a datum walks like the original)")
